@@ -88,8 +88,10 @@ pub struct BuildCfg {
     /// rewrite the source files (same length / longer / shorter / removed) between the last
     /// with_file() call and build(): whatever the builder then packages must be consistent with
     /// itself (only self-consistency is judged for such configurations)
+    /// 0 = no; 1 = every file rewritten with other bytes of the same length; 2 = every file grows and
+    /// its old bytes change too; 3 = a mix of both with truncated and removed files
     #[serde(default)]
-    pub disturb_sources: bool,
+    pub disturb_sources: u8,
 }
 
 /// the instant `secs` in the form selected by `form` (see BuildCfg::time_form)
@@ -166,14 +168,22 @@ pub fn materialize_sources(cfg: &BuildCfg, dir: &Path) -> Vec<PathBuf> {
 }
 
 /// see BuildCfg::disturb_sources
-pub fn disturb(sources: &[PathBuf]) {
+pub fn disturb(sources: &[PathBuf], how: u8) {
     use std::os::unix::fs::PermissionsExt;
     for (i, p) in sources.iter().enumerate() {
         let _ = std::fs::set_permissions(p, std::fs::Permissions::from_mode(0o644));
         let Ok(mut data) = std::fs::read(p) else { continue };
-        match i % 4 {
+        let what = match how {
+            1 => 0,
+            2 => 1,
+            _ => i % 4,
+        };
+        match what {
             0 => data.iter_mut().for_each(|b| *b ^= 0xff),
-            1 => data.extend_from_slice(b"appended after with_file()"),
+            1 => {
+                data.iter_mut().for_each(|b| *b = b.wrapping_add(1));
+                data.extend_from_slice(b"appended after with_file()");
+            }
             2 => data.truncate(data.len() / 2),
             _ => {
                 let _ = std::fs::remove_file(p);
@@ -439,8 +449,8 @@ fn scalar_setter(cfg: &BuildCfg, b: PackageBuilder, i: usize) -> PackageBuilder 
 pub fn build(cfg: &BuildCfg, dir: &Path) -> Result<rpm::Package, rpm::Error> {
     let sources = materialize_sources(cfg, dir);
     let b = builder_for(cfg, &sources)?;
-    if cfg.disturb_sources {
-        disturb(&sources);
+    if cfg.disturb_sources != 0 {
+        disturb(&sources, cfg.disturb_sources);
     }
     rpm::verif_hooks::set_force_large_files(cfg.large_files);
     let r = b.build();
